@@ -102,8 +102,14 @@ func (re *remainderExprNode) Run(ctx context.Context, currField string, tagExpr 
 	if v1 == 0 {
 		return math.NaN()
 	}
+	// the remainder is taken on the truncated operands: a divisor in (-1, 1)
+	// truncates to zero and must not reach the integer division
+	i1 := int64(v1)
+	if i1 == 0 {
+		return math.NaN()
+	}
 	v0, _ := toFloat64(re.leftOperand.Run(ctx, currField, tagExpr), true)
-	return float64(int64(v0) % int64(v1))
+	return float64(int64(v0) % i1)
 }
 
 type equalExprNode struct{ exprBackground }
